@@ -5,7 +5,9 @@ translate   Gen/LineTables.lean (Style::constraints, DEFAULT_PRECEDENCE, the sca
 prove       RModel.Props.C06 (filterCompatible facts over all texts, resolver membership, key unambiguity, boundary and
             coercion lemmas, the composed same-style theorem under its guard, witnesses)
 correspond  `rewriteline` = real plan_operation (real build_styles_list) + apply_plan on a one-line file  vs
-            LinePipeline.rewriteLine;  `filtercompat`, `resolve`, `stylelist` on hostile texts / option sets
+            LinePipeline.rewriteLineReal (the COMPOSED model of Model/LineEnv.lean: real coercion decision, real compound pass
+            with overlap resolution, the scanner's pre-filter), also on the `busy lines` family (checks/c06_lines.py: the term
+            embedded in longer identifiers, dotted paths, '-'/'_' mixes, several occurrences per line);  `filtercompat`, `resolve`, `stylelist` on hostile texts / option sets
             `rewritefile` / `resolvectx` (harness only): context-heavy multi-line files, oracle-judged
 oracle      independent: expected line = d1 + gen.render(style, replacement words) + d2 when the occurrence style is enabled
             under the documented option semantics, unchanged otherwise; ambiguity clause on flat / single-word occurrences.
@@ -18,7 +20,7 @@ import concurrent.futures
 import json
 import os
 
-from . import common, gen
+from . import common, gen, c06_lines
 from .common import hexs, unhex
 
 # neutral delimiter contexts: line start/end, spaces, quotes, brackets, '/', '::', '.', ',' and an occurrence inside a
@@ -271,6 +273,8 @@ def run_witnesses(ctx, forms):
             continue
         obj = json.load(open(os.path.join(d, fn)))
         case = obj["case"]
+        if case.get("family") == "busy":
+            continue        # re-observed by c06_lines.run_family
         req = mkreq(forms, case["line"], case["search"], case["replace"], case["opts"])
         impl = common.run_impl([req])[0]
         model = common.run_model([req])[0]
@@ -467,7 +471,10 @@ def run(ctx):
         "ambiguity clause: flat occurrences and single-word search terms x option sets, and the same occurrences inside context-heavy "
         "files (60..120 identifiers, 62..100 % in one of 5 dominant styles) x 14 extensions x 23 preceding contexts through the real "
         "pipeline + the resolver contract on those contexts; filtercompat/resolve on 1500 (quick 500) "
-        "hostile texts; stylelist on all option sets + 200 random option sets. non-trivial = the line contains an occurrence; "
+        "hostile texts; stylelist on all option sets + 200 random option sets; busy lines: 9 hand-written + 1200 (thorough 6000) random "
+        "lines of 2..5 items (standalone occurrence in one of 12 styles | term embedded in a one-style identifier | prefix/term/suffix "
+        "in three independently chosen styles joined by _ - . or nothing | dotted path | filler; 35 %: the spelling of an earlier "
+        "embedded term once more standing alone) x 14 option sets x plural variants on/off x CLI/core-API table. non-trivial = the line contains an occurrence; "
         "distinct = distinct request line")
     ctx.cov["exhaustive"] = True
     ctx.assumptions += [
@@ -476,8 +483,10 @@ def run(ctx):
         "one-line ASCII file a.txt: no language heuristic, fewer than 50 identifiers (file-context heuristic silent), no project root",
         "acronym set = DEFAULT_ACRONYMS; vocabulary words are neutral (no acronym, no digit, regular plural)",
         "pluralizer crate answers are fed to the model as data (parameters sing/plur of the theorems)",
-        "coercion beyond its first exit and the compound pass are parameters of the model (contracts CoerceOk, no compound hunk); "
-        "any generated line on which they act shows up as a model/implementation difference",
+        "the rewriteline op runs the composed model (Model/LineEnv.lean): coercion = RenamePlan.applyCoercion + apply_coercion_to_variant, "
+        "compound pass = Compound.findAll/findCompound + overlap resolution, pre-filter; only the resolver's context heuristics stay a "
+        "parameter.  Non-ASCII characters of a line must be neither alphanumeric nor white space (the model treats every byte >= 0x80 "
+        "as a non-word byte)",
         "'enabled' per option set = (Style::default_styles() minus --exclude-styles) plus --include-styles, or --only-styles; the "
         "help text of --exclude-styles lists only 7 defaults, the code (and this check) use the 11 of Style::default_styles()"]
     # ---- translate -----------------------------------------------------------------------------------------------
@@ -496,6 +505,11 @@ def run(ctx):
     rng = ctx.rng
     forms = Forms()
     seen = run_witnesses(ctx, forms)
+
+    # ---- busy lines: the compound pass and the coercion are NOT silent (composed model, checks/c06_lines.py) ---------
+    import sys
+    if not c06_lines.run_family(ctx, sys.modules[__name__], forms):
+        return
 
     # ---- option sets: documented semantics vs build_styles_list (real) vs model ------------------------------------
     sreqs = ["stylelist " + o for o in opt_sets]
@@ -754,6 +768,10 @@ def replay(ctx, path):
             print("property holds on this case")
         return
     common.lean_build([])
+    if case.get("family") == "busy":
+        import sys
+        c06_lines.replay_case(ctx, sys.modules[__name__], case)
+        return
     forms = Forms()
     req = mkreq(forms, case["line"], case["search"], case["replace"], case["opts"])
     impl = common.run_impl([req])[0]
